@@ -102,7 +102,9 @@ func init() {
 	intrinsics["time.Now"] = func(c *Ctx, st *State, in ssa.Instruction, args []Value) Value {
 		c.Assumed["time.Now() returns an arbitrary time value (ghost clock not modelled)"] = true
 		call := in.(ssa.CallInstruction)
-		return c.symbolic(st, call.Common().Signature().Results().At(0).Type(), "now")
+		v := c.symbolic(st, call.Common().Signature().Results().At(0).Type(), "now")
+		st.CallLog = append(st.CallLog, CallRec{Callee: "time.Now", Ret: v})
+		return v
 	}
 	// standard-library string helpers: executed natively when every argument is concrete
 	str2 := func(name string, f func(a, b string) Value) {
